@@ -9,7 +9,9 @@
 (* B; the write is cut after Cut blocks of the NBlocks the new file needs       *)
 (* (process killed there, or the write failing there: disk full / file size     *)
 (* limit) or completes (Cut = NBlocks).  Then the sidecar is started, and        *)
-(* started again.                                                               *)
+(* started again.  With c.retry (only when the write FAILED and the process       *)
+(* lives on) the coordinator sends the same assignment again - its view of the     *)
+(* shard still differs - and this second attempt meets no fault.                   *)
 (*                                                                           *)
 (* AtomicStore = FALSE: ioutil.WriteFile on the store file itself (truncate,    *)
 (* write, close).  TRUE: write a temporary file, sync, rename over the store.   *)
@@ -20,21 +22,23 @@ EXTENDS Integers, Sequences, FiniteSets
 
 CONSTANTS AtomicStore, LoadFailRewrites, Cases
 
-VARIABLES c,        \* the case: [a, b, nblocks, cut]
+VARIABLES c,        \* the case: [a, b, nblocks, cut, retry]
+          attempt,  \* 1, or 2 for the repeated update
           pc,
           primary,  \* [has, of, blocks, n]: store file holds `blocks' of the n blocks of assignment `of'
           tmp,      \* same for the temporary file
           acked,    \* the update of b was acknowledged
           starts    \* sequence of start outcomes: [ok, resumed]
 
-vars == <<c, pc, primary, tmp, acked, starts>>
+vars == <<c, attempt, pc, primary, tmp, acked, starts>>
+CutAt == IF attempt = 1 THEN c.cut ELSE c.nblocks
 
 NoFile == [has |-> FALSE, of |-> "none", blocks |-> 0, n |-> 0]
 Complete(f) == f.has /\ f.blocks = f.n /\ f.n > 0
 
 Init ==
   /\ c \in Cases
-  /\ pc = "begin"
+  /\ pc = "begin" /\ attempt = 1
   /\ primary = IF c.a = "none" THEN NoFile ELSE [has |-> TRUE, of |-> c.a, blocks |-> 1, n |-> 1]
   /\ tmp = NoFile /\ acked = FALSE /\ starts = <<>>
 
@@ -45,18 +49,18 @@ OpenTarget ==
        THEN tmp' = [has |-> TRUE, of |-> c.b, blocks |-> 0, n |-> c.nblocks] /\ UNCHANGED primary
        ELSE primary' = [has |-> TRUE, of |-> c.b, blocks |-> 0, n |-> c.nblocks] /\ UNCHANGED tmp   \* O_TRUNC
   /\ pc' = "write"
-  /\ UNCHANGED <<c, acked, starts>>
+  /\ UNCHANGED <<c, attempt, acked, starts>>
 
 WriteBlock ==
   /\ pc = "write"
   /\ IF AtomicStore
-       THEN IF tmp.blocks < c.cut
+       THEN IF tmp.blocks < CutAt
               THEN tmp' = [tmp EXCEPT !.blocks = @ + 1] /\ UNCHANGED <<primary, pc>>
-              ELSE pc' = (IF c.cut = c.nblocks THEN "finish" ELSE "cut") /\ UNCHANGED <<primary, tmp>>
-       ELSE IF primary.blocks < c.cut
+              ELSE pc' = (IF CutAt = c.nblocks THEN "finish" ELSE "cut") /\ UNCHANGED <<primary, tmp>>
+       ELSE IF primary.blocks < CutAt
               THEN primary' = [primary EXCEPT !.blocks = @ + 1] /\ UNCHANGED <<tmp, pc>>
-              ELSE pc' = (IF c.cut = c.nblocks THEN "finish" ELSE "cut") /\ UNCHANGED <<primary, tmp>>
-  /\ UNCHANGED <<c, acked, starts>>
+              ELSE pc' = (IF CutAt = c.nblocks THEN "finish" ELSE "cut") /\ UNCHANGED <<primary, tmp>>
+  /\ UNCHANGED <<c, attempt, acked, starts>>
 
 Finish ==   \* close (and sync + rename): the update is acknowledged
   /\ pc = "finish"
@@ -64,11 +68,15 @@ Finish ==   \* close (and sync + rename): the update is acknowledged
        THEN primary' = tmp /\ tmp' = NoFile
        ELSE UNCHANGED <<primary, tmp>>
   /\ acked' = TRUE /\ pc' = "stopped"
-  /\ UNCHANGED <<c, starts>>
+  /\ UNCHANGED <<c, attempt, starts>>
 
 Cut ==      \* killed, or the write failed and the process is stopped later: same disk state
-  /\ pc = "cut" /\ pc' = "stopped"
-  /\ UNCHANGED <<c, primary, tmp, acked, starts>>
+  /\ pc = "cut"
+  /\ IF c.retry /\ attempt = 1
+       THEN \* the failed attempt removes its temporary file; the update arrives again
+            /\ pc' = "begin" /\ attempt' = 2 /\ tmp' = NoFile
+       ELSE pc' = "stopped" /\ UNCHANGED <<attempt, tmp>>
+  /\ UNCHANGED <<c, primary, acked, starts>>
 
 (* --- a start: Load --- *)
 Start ==
@@ -85,7 +93,7 @@ Start ==
           /\ IF LoadFailRewrites
                THEN primary' = [has |-> TRUE, of |-> "empty", blocks |-> 1, n |-> 1]
                ELSE UNCHANGED primary
-  /\ UNCHANGED <<c, pc, tmp, acked>>
+  /\ UNCHANGED <<c, attempt, pc, tmp, acked>>
 
 Done == pc = "stopped" /\ Len(starts) = 2 /\ UNCHANGED vars
 Next == OpenTarget \/ WriteBlock \/ Finish \/ Cut \/ Start \/ Done
